@@ -87,6 +87,40 @@ fn remote_join_executor_drop() {
     });
 }
 
+/// F040: a remote handle polled a SECOND time (same waker) while the task completes. If the second poll's
+/// `load` precedes `finish_running`, its `start_setting_waker` follows it and the executor's `Task::drop`
+/// (`set_dropped` clears HAS_WAKER, sees SETTING_WAKER and leaves the waker alone) falls inside that section,
+/// the section is left through `finish_setting_waker::<false>` and nobody ever drops the waker in the slot.
+/// Oracle: after handle, executor and the polling thread's own `Waker` are gone, we hold the only reference.
+fn remote_join_waker_leak() {
+    loom::model(|| {
+        let exe = Executor::new();
+        let handle = exe.spawn(Once(true));
+        let cw = Arc::new(CountWaker(AtomicUsize::new(0)));
+        let cw2 = cw.clone();
+        let t = thread::spawn(move || {
+            let waker = Waker::from(cw2);
+            let cx = &mut Context::from_waker(&waker);
+            let mut h = handle;
+            let mut r = Pin::new(&mut h).poll(cx);
+            if r.is_pending() {
+                r = Pin::new(&mut h).poll(cx);
+            }
+            drop(r);
+            h
+        });
+        while exe.tick() {}
+        let h = t.join().unwrap();
+        drop(h);
+        drop(exe);
+        assert_eq!(
+            Arc::strong_count(&cw),
+            1,
+            "F040 join waker leaked: a Waker clone stored in the task's slot was never dropped"
+        );
+    });
+}
+
 fn main() {
     let which = std::env::args().nth(1).unwrap_or_else(|| "all".into());
     let run = |name: &str, f: &dyn Fn()| {
@@ -98,4 +132,9 @@ fn main() {
     run("remote_join_wake", &|| remote_join_wake(false));
     run("remote_join_wake_yield", &|| remote_join_wake(true));
     run("remote_join_executor_drop", &|| remote_join_executor_drop());
+    // known finding F040 (fails on the current code): only on request, not part of "all"
+    if which == "remote_join_waker_leak" {
+        remote_join_waker_leak();
+        println!("loom remote_join_waker_leak: ok");
+    }
 }
